@@ -49,9 +49,12 @@ func c06Inner(c *vlib.Case) (*vlib.Violation, string) {
 
 const c06Repeats = 6
 
+var c06OtherProject = vlib.SingleFile([]byte("JSIGHT 0.3\n\nTYPE @other\n  {\"other\": [1, 2, 3]}\n\nGET /other/{id}\n  200 @other\n  404 any\n"))
+
 func c06Oracle(c *vlib.Case) *vlib.Violation {
 	first := ""
 	firstJSON := ""
+	var retained []byte
 	orig := c.Project.Clone()
 	defer func() {
 		// restore the case (a build that modified its input must not poison the saved replay)
@@ -81,10 +84,25 @@ func c06Oracle(c *vlib.Case) *vlib.Violation {
 		if b.Out.OK() {
 			j, _ := b.Api.ToJson()
 			js = string(j)
+			if i == 0 {
+				retained = j // the slice itself: later builds and serialisations must leave it alone
+			}
 		}
 		b.Close()
 		if i == 0 {
 			first, firstJSON = k, js
+			// an unrelated project is built and serialised in between: "prior builds" must not show in a later result,
+			// nor later builds in an earlier one
+			ob := vlib.Build(c06OtherProject)
+			if ob.Out.OK() {
+				_, _ = ob.Api.ToJson()
+				_, _ = ob.Api.ToJsonIndent()
+			}
+			ob.Close()
+			if retained != nil && string(retained) != firstJSON {
+				d := firstDiffPos(firstJSON, string(retained))
+				return vlib.V("c06:result-overwritten-by-later-build", "the bytes returned by ToJson of build #0 changed while another project was built and serialised (at byte %d):\n returned: %s\n now:      %s", d, around(firstJSON, d), around(string(retained), d))
+			}
 			continue
 		}
 		_ = firstJSON
